@@ -453,9 +453,11 @@ func c01FlamePhase(r *core.Run, cat []catRoute, paths []string) {
 				}
 				l.States++
 				var served []c01Req
+				// (the texts of the registered routes themselves are asked as well: a pattern is no path of its own)
+				cpaths := append(append([]string{}, paths...), c01Texts(rs)...)
 				for _, rm := range reqMethods {
-					for pi := 0; pi < 2*len(paths); pi++ {
-						p, spelled := paths[pi/2], pi%2 == 1
+					for pi := 0; pi < 2*len(cpaths); pi++ {
+						p, spelled := cpaths[pi/2], pi%2 == 1
 						req := newReq(rm, p)
 						if spelled {
 							var ok bool
